@@ -109,8 +109,8 @@ theorem batch_untouched_on_reject (thr : Nat) (env : Env) (r : Route) (d : Doc) 
     · simp [he] at h
     · exact main h
 
-/-- the same for every request, accepted or not, on every route but Prometheus remote write (whose accepted
-    requests can be out of shape on the pinned and the fixed tree: A1, owned by C02/C03) -/
+/-- the same for every request, accepted or not, on every route but Prometheus remote write (statement kept
+    from the time A1 was open; `batch_rectangular_all` below drops the exception) -/
 theorem batch_rectangular (thr : Nat) (env : Env) (r : Route) (d : Doc) (cols : Cols)
     (hr : r ≠ .promWrite) (hc : cols.rect = true) :
     (ingestFull fixed thr env r d cols).2.rect = true := by
@@ -154,6 +154,23 @@ theorem batch_rectangular (thr : Nat) (env : Env) (r : Route) (d : Doc) (cols : 
           cases r <;> cases hb : d.body <;> simp only [routeItems, hb] at hi <;> (repeat' split at hi) <;>
             (try contradiction) <;> (try cases hi)
           all_goals exact profileItems_one_onProfile _ _ _ _ _
+      exact doParse_rect fixed env _ _ _ cols [] (trace_good _ _ _ hg.1 hg.2) hc
+  cases d.enc <;> first | exact hc | exact main
+
+/-- after the A1 fix (C03) was merged: every request, accepted or not, on EVERY route leaves the shared
+    columns rectangular -/
+theorem batch_rectangular_all (thr : Nat) (env : Env) (r : Route) (d : Doc) (cols : Cols)
+    (hc : cols.rect = true) : (ingestFull fixed thr env r d cols).2.rect = true := by
+  unfold ingestFull
+  have main : (match routePlan fixed thr r d.body with
+      | .reject code => (Outcome.status code, cols)
+      | .preParse code => doParse fixed env r.okStatus [.error code] 1 cols []
+      | .run run => doParse fixed env r.okStatus run.trace.msgs run.trace.closes cols []).2.rect = true := by
+    cases hp : routePlan fixed thr r d.body with
+    | reject c => exact hc
+    | preParse c => simpa [doParse] using hc
+    | run run =>
+      have hg := routePlan_good_all fixed rfl rfl thr r d.body run hp
       exact doParse_rect fixed env _ _ _ cols [] (trace_good _ _ _ hg.1 hg.2) hc
   cases d.enc <;> first | exact hc | exact main
 
